@@ -1,2 +1,3 @@
 //! C05 - decoders are total, bounded and chunking-independent on arbitrary bytes.
 pub mod header;
+pub mod body;
